@@ -114,7 +114,10 @@ class DataType:
                 return self
             return DataType(self.kind, nullable=True)
 
-        vtype = type(value)
+        # The value's kind, by the same rule infer_dtype uses for a first element
+        # (isinstance-based: a subclass of int/float/str/date counts as that kind),
+        # so that promotion does not depend on which element comes first
+        vtype = infer_kind(value)
 
         # Case 2: Exact match
         if vtype is self.kind:
